@@ -50,6 +50,10 @@ type concCall struct {
 	// the request goes to the unit that answers with an over-long frame: the call has to fail (with
 	// the client's too-long error) and nothing else may be disturbed
 	tooLong bool
+	// the call is expected to PANIC inside the library while it holds the client's lock, and the
+	// caller recovers: 1 = the user's hook panics (request to the hook's panic unit), 2 = the request
+	// is a typed-nil pointer whose Bytes() panics.  Everybody else has to be served afterwards.
+	panics int
 	// written by the calling goroutine, read by the judge: both under concRun's result mutex
 	status int // 0 reply received, 1 error returned, 2 the call panicked, 3 never returned
 	reply  []byte
@@ -164,6 +168,16 @@ func concRequestFC3(kind int, r *rng, id uint16) packet.Request {
 	return x
 }
 
+// a request value that is not nil but holds a nil pointer: Do's nil check passes, Bytes() panics
+func concTypedNil(kind int) packet.Request {
+	if kind == 0 {
+		var r *packet.ReadHoldingRegistersRequestTCP
+		return r
+	}
+	var r *packet.ReadHoldingRegistersRequestRTU
+	return r
+}
+
 func nilIfErrC[T packet.Request](x T, err error) (packet.Request, error) {
 	if err != nil {
 		return nil, err
@@ -187,6 +201,7 @@ type concHookRec struct {
 }
 
 type concHooks struct {
+	kind     int
 	recs     []concHookRec
 	overflow bool
 }
@@ -206,7 +221,13 @@ func (h *concHooks) add(tag int, b []byte) {
 	h.recs[k].n = copy(h.recs[k].data[:], b)
 }
 
-func (h *concHooks) BeforeWrite(toWrite []byte) { h.add(0, toWrite) }
+// a user hook with a bug: it panics on requests to unit 96 (before it records anything)
+func (h *concHooks) BeforeWrite(toWrite []byte) {
+	if concUnit(h.kind, toWrite) == concPanicUnit {
+		panic("hook: cannot handle this request")
+	}
+	h.add(0, toWrite)
+}
 func (h *concHooks) AfterEachRead(received []byte, n int, err error) {
 	if n > 0 { // reads that time out with nothing are not recorded
 		h.add(1, received)
@@ -270,7 +291,9 @@ type concOpts struct {
 	// share of calls addressed to the unit that answers with 265 bytes
 	longPct int
 	// call 0 of goroutine 0 goes to the unit whose reply is completed 2 ms after the read time-out
-	brink        bool
+	brink bool
+	// share of calls that panic inside the library (hook panic / typed-nil request), recovered by the caller
+	panicPct     int
 	latency      time.Duration // slow device
 	readTimeout  time.Duration
 	writeTimeout time.Duration
@@ -310,6 +333,17 @@ func concRun(kind int, r *rng, o concOpts) concResult {
 			case o.brink && g == 0 && k == 0:
 				special = concBrinkUnit
 			}
+			pk := 0
+			if o.panicPct > 0 && special == 0 && r.intn(100) < o.panicPct {
+				pk = 1 + r.intn(2)
+				if pk == 1 {
+					special = concPanicUnit
+				}
+			}
+			if pk == 2 {
+				calls[g] = append(calls[g], &concCall{g: g, k: k, req: concTypedNil(kind), status: 3, panics: 2})
+				continue
+			}
 			var req packet.Request
 			if o.answering {
 				req = concRequestFC3(kind, r, uint16(1+g*m+k))
@@ -317,7 +351,7 @@ func concRun(kind int, r *rng, o concOpts) concResult {
 				req = concRequest(kind, r, uint16(1+g*m+k), special)
 			}
 			calls[g] = append(calls[g], &concCall{g: g, k: k, req: req, bytes: req.Bytes(), status: 3, ctxMs: ctxMs,
-				pauseMs: pauseMs, tooLong: special == concLongUnit})
+				pauseMs: pauseMs, tooLong: special == concLongUnit, panics: pk})
 		}
 	}
 	thresholds := make([]int, nCloses)
@@ -358,6 +392,7 @@ func concRun(kind int, r *rng, o concOpts) concResult {
 	var hooksIface modbus.ClientHooks // stays a nil interface when the case has no hooks
 	if o.hooked {
 		hooks = newConcHooks(16*n*m + 64)
+		hooks.kind = kind
 		hooksIface = hooks
 	}
 	ctx := context.Background()
@@ -420,7 +455,9 @@ func concRun(kind int, r *rng, o concOpts) concResult {
 		defer atomic.AddInt32(&completed, 1)
 		defer func() {
 			if rec := recover(); rec != nil {
-				atomic.AddInt32(&panics, 1)
+				if c.panics == 0 {
+					atomic.AddInt32(&panics, 1) // a panic nobody asked for
+				}
 				rmu.Lock()
 				c.status = 2
 				rmu.Unlock()
@@ -549,6 +586,11 @@ func concRun(kind int, r *rng, o concOpts) concResult {
 			if c.ctxMs > 0 {
 				abandon = 1
 				abandonable[string(c.bytes)] = true
+			} else if c.panics > 0 {
+				abandon = 3 // expected to panic inside the library; the caller recovers
+				if c.status != 2 {
+					allServed = false
+				}
 			} else if c.tooLong {
 				abandon = 2 // not abandoned by the caller: the device's answer cannot be accepted
 				abandonable[string(c.bytes)] = true
@@ -709,6 +751,11 @@ func streamConc(seed uint64, thorough bool) {
 	//  - over-long replies: a third of the calls go to a unit that answers with 265 bytes; they fail
 	//    with the client's too-long error, which the callers format while others are inside Do
 	//    (several clients at once: the cases of this batch run concurrently); nothing else changes
+	//  - panics inside the library while it holds the lock (a user hook that panics, a typed-nil
+	//    request), recovered by the caller: the lock must have been released, everybody else is served
+	for i := 0; i < slowRuns; i++ {
+		jobs = append(jobs, job{i % 3, concOpts{n: 3, m: 4, panicPct: 30, readTimeout: concReadTimeout, hooked: true}})
+	}
 	//  - brink: the reply to the first call is completed 2 ms AFTER the client's read time-out has
 	//    elapsed, by a Read that was entered before; the call and all later ones are served
 	for i := 0; i < slowRuns; i++ {
